@@ -414,6 +414,37 @@ RULES = {
 
 
 DOTALL = ["inner_macro_def", "mismatch_debug", "offered_let"]
+JSON_DOTALL = DOTALL_EXTRA = DOTALL   # (one list; json targets add to it through register_json_rules)
+
+
+def register_json_rules(d, origin):
+    """One reader for the json dialects that four builders introduced independently in round 9 (kept compatible with all of
+    them): `"rules": {name: [regex, replacement, why, count?, "dotall"?]}` (count 0 or null = at least once; a name already
+    defined differently is an error; a regex may also start with `(?s)`), `"rules_dotall": [names]`,
+    `"normalise": {"Impl::fn" | "::fn" | "fn": [rule names]}` (json has no tuple keys; a free function has impl None)."""
+    dot_names = set(d.pop("rules_dotall", None) or [])
+    all_dot = ".b1315." in str(origin)      # b1315's dialect: every rule of a json file is applied with re.S
+    for rn, rv in (d.pop("rules", None) or {}).items():
+        rv = list(rv)
+        dot = "dotall" in rv[3:] or rn in dot_names or all_dot
+        rv = [x for x in rv if x != "dotall"]
+        if len(rv) > 3 and rv[3] == 0: rv[3] = None
+        rv = tuple(rv)
+        if rn in RULES and tuple(RULES[rn]) != rv:
+            raise ExtractError("x_fn: %s: normalisation rule %r is already defined differently" % (origin, rn))
+        RULES[rn] = rv
+        if dot and rn not in DOTALL: DOTALL.append(rn)
+    norm = d.get("normalise")
+    if isinstance(norm, dict):
+        out = {}
+        for k, v in norm.items():
+            if isinstance(k, str):
+                impl, _, fn = k.rpartition("::")
+                k = (impl or None, fn)
+            elif isinstance(k, tuple) and k[0] == "":
+                k = (None, k[1])
+            out[k] = list(v)
+        d["normalise"] = out
 
 
 def make_rewriter(rel, plan):
@@ -450,7 +481,7 @@ def make_rewriter(rel, plan):
                 def sub(m):
                     out = m.expand(repl)
                     return out + "\n" * (m.group(0).count("\n") - out.count("\n"))
-                seg, n = re.subn(rx, sub, seg, flags=re.S if rn in DOTALL else 0)
+                seg, n = re.subn(rx, sub, seg, flags=re.S if (rn in DOTALL or rn in DOTALL_EXTRA) else 0)
                 if (want is None and n < 1) or (want is not None and n != want):
                     bad = "normalisation rule %r applies %d times in %s (declared: %s)" % (rn, n, name, want or "at least once"); break
                 log.append(("%s in %s: %s" % (rn, name, RULES[rn][2]), n))
@@ -465,7 +496,7 @@ def make_rewriter(rel, plan):
 
 
 def make_arm_synth(rel, arms, line_map):
-    """(round 9) target key `arms`: [{"impl": "ChannelHandler", "fn": "do_handle", "arm": "RevokeCommitmentTx",
+    """(round 9, bfn) target key `arm_methods`: [{"impl": "ChannelHandler", "fn": "do_handle", "arm": "RevokeCommitmentTx",
     "ret": "msgs::RevokeCommitmentTxReply"}, …].  Every listed arm `Message::<arm>(<binder>) => <body>` of the `match` in
     `<impl>::<fn>` is appended to the source text as a method of its own,
 
@@ -549,15 +580,7 @@ def load_targets():
     def add(d, origin):
         d = dict(d)
         d["fns"] = [tuple(x) for x in d.get("fns", [])]
-        # (b1012, round 9) normalisation from a json target file: `"rules": {name: [regex, replacement, why, count?]}` are added to
-        # RULES (a name may not be redefined differently), `"normalise": {"Impl::fn" | "::fn": [rule names]}`
-        for rn, r in (d.pop("rules", None) or {}).items():
-            if rn in RULES and tuple(RULES[rn]) != tuple(r):
-                raise ExtractError("x_fn: %s: normalisation rule %s is already defined differently" % (origin, rn))
-            RULES[rn] = tuple(r)
-        if d.get("normalise") and not all(isinstance(k, tuple) for k in d["normalise"]):
-            d["normalise"] = {((k.split("::", 1)[0] or None, k.split("::", 1)[1]) if isinstance(k, str) else k): list(v)
-                              for k, v in d["normalise"].items()}
+        register_json_rules(d, origin)
         if d["area"] not in by:
             d.setdefault("consts", []); d.setdefault("structs", []); d.setdefault("externals", {}); d.setdefault("foreign_structs", {})
             d["consts"], d["structs"] = list(d["consts"]), list(d["structs"])
@@ -577,6 +600,8 @@ def load_targets():
         t["tuple_structs"] += [n for n in d.get("tuple_structs", []) if n not in t["tuple_structs"]]
         t["fns_from"] += [n for n in d.get("fns_from", []) if n not in t["fns_from"]]
         if d.get("normalise"): t.setdefault("normalise", {}).update(d["normalise"])
+        if d.get("views"):
+            t["views"] = (t.get("views") or "") + "\n" + d["views"]
     for t in TARGETS: add(t, "TARGETS")
     for path in sorted(glob.glob(os.path.join(HERE, "fn_targets", "*.json"))):
         try:
@@ -585,21 +610,6 @@ def load_targets():
             raise ExtractError("x_fn: %s: %s" % (path, e))
         for d in (data if isinstance(data, list) else [data]):
             d = dict(d)
-            # (round 9, b04, additive) a target file may bring its own normalisation rules:
-            #   "rules": {name: [regex, replacement, why, count?, "dotall"?]}  (a name already defined differently is an error)
-            #   "normalise": {"Impl::fn": [rule names]}  (JSON has no tuple keys)
-            for rn, rv in (d.pop("rules", None) or {}).items():
-                rv = list(rv)
-                dot = "dotall" in rv[3:]
-                rv = [x for x in rv if x != "dotall"]
-                if len(rv) > 3 and rv[3] == 0: rv[3] = None          # 0 = "at least once"
-                if rn in RULES and tuple(RULES[rn]) != tuple(rv):
-                    raise ExtractError("x_fn: %s: normalisation rule %r is already defined" % (path, rn))
-                RULES[rn] = tuple(rv)
-                if dot and rn not in DOTALL: DOTALL.append(rn)
-            if isinstance(d.get("normalise"), dict):
-                d["normalise"] = {(tuple(k.split("::", 1)) if "::" in k else ("", k)): v
-                                  for k, v in d["normalise"].items() if not isinstance(k, tuple)}
             add(d, os.path.basename(path))
     return tgs
 
@@ -611,14 +621,8 @@ def _json_plan(tg):
     """json form of a target block (round 9, b0103): `"normalise": {"Impl::fn": [rule names]}`, `"rules": {name: [regex,
     replacement, what is trusted, count?]}` (a regex that must see several lines starts with `(?s)`; a rule name must not
     clash with a rule of RULES unless it is the same rule), `"arms"`: see translate/fn_arms.py"""
-    for rn, r in (tg.get("rules") or {}).items():
-        r = tuple(r)
-        if rn in RULES and tuple(RULES[rn]) != r:
-            raise ExtractError("x_fn: area %s: normalisation rule %r is already defined differently" % (tg["area"], rn))
-        RULES[rn] = r
+    register_json_rules(tg, "area %s" % tg["area"])
     norm = tg.get("normalise")
-    if norm:
-        norm = {(((k.rpartition("::")[0] or None), k.rpartition("::")[2]) if isinstance(k, str) else (k[0] or None, k[1])): v for k, v in norm.items()}
     return norm
 
 
@@ -626,23 +630,20 @@ def unit_for(repo, tg):
     line_map = {}
     norm = _json_plan(tg)
     import fn_arms
-    rws = []
-    # `arms`: a list = the form of builder bfn (make_arm_synth: methods appended to the text); a dict = the form of builder
-    # b0103 (fn_arms.make_arm_splitter: the dispatch function's lines rewritten in place)
-    if isinstance(tg.get("arms"), list): rws.append(make_arm_synth(tg["rel"], tg["arms"], line_map))
-    elif tg.get("arms"): rws.append(fn_arms.make_arm_splitter(tg["rel"], tg["arms"]))
-    if norm: rws.append(make_rewriter(tg["rel"], norm))
-    def rewrite(src, log, failed):
-        for r in rws: src = r(src, log, failed)
-        return src
+    # `arms` (builder b0103, translate/fn_arms.py): the dispatch function's lines are rewritten in place into one method per
+    # selected arm; `arm_methods` (builder bfn, make_arm_synth above): one method per listed arm is appended to the text
+    rewrite = fn_arms.compose(make_arm_synth(tg["rel"], tg["arm_methods"], line_map) if tg.get("arm_methods") else None,
+                              fn_arms.make_arm_splitter(tg["rel"], tg["arms"]) if tg.get("arms") else None,
+                              make_rewriter(tg["rel"], norm) if norm else None)
     u = Unit(repo, tg["rel"], "VlsModel.Gen.Fn" + tg["area"], tg.get("consts", ()), tg.get("externals", {}),
              tg.get("structs", ()), foreign_structs=tg.get("foreign_structs"), tuple_structs=tg.get("tuple_structs"),
              fn_files=tg.get("fns_from", ()),
              views=tg.get("views"), error_ctors=tg.get("error_ctors"), compact_guards=bool(tg.get("compact_guards")), any_order=bool(tg.get("any_order")),
-             rewrite=rewrite if rws else None)
+             rewrite=rewrite)
     u.vec_types = tuple(tg.get("vec_types", ()))
     u.line_map = line_map      # synthesized methods (arms, list form): the line of the arm in the real source
     u.log_macros = tuple(tg.get("log_macros", ()))     # declared logging-only macros of the file
+    u.reindent_closures = bool(tg.get("reindent_closures"))    # (b0809) see emit_m in rs2lean.py
     return u
 
 
@@ -685,7 +686,7 @@ def census(repo, tgs=None, units=None):
             # arms of a dispatching `match` translated as methods of their own (translate/fn_arms.py): one extra row per
             # declared arm, named `Impl::fn[Variant]`; the row of the function itself stays what it is
             for tg in tgs:
-                sp = tg["arms"].get(qn) if tg["rel"] == rel and isinstance(tg.get("arms"), dict) else None
+                sp = (tg.get("arms") or {}).get(qn) if tg["rel"] == rel else None
                 for v, a in (sp["arms"].items() if sp else ()):
                     tu = (units or {}).get(tg["area"])
                     ok = tu is not None and (impl, a["fn"]) in tu.fns
@@ -717,14 +718,14 @@ def census(repo, tgs=None, units=None):
             else:
                 why = re.sub(r"^([\w:]+: )+", "", str(why))
                 rows.append({"fn": qn, "line": line_no, "status": "not translatable", "why": why[:200]})
-        # (round 9) dispatch arms translated as methods of their own (target key `arms`): listed per dispatch function,
+        # (round 9) dispatch arms translated as methods of their own (target key `arm_methods`): listed per dispatch function,
         # next to the `fn` items (they are not `fn` items of the source and are not counted as such)
         arms_out = []
         for tg in tgs:
-            if tg["rel"] != rel or not isinstance(tg.get("arms"), list): continue
+            if tg["rel"] != rel or not tg.get("arm_methods"): continue
             tu = (units or {}).get(tg["area"])
             thm_of = {(t[0] or None, t[1]): t[3] for t in tg["fns"]}
-            for (impl_, fn_) in sorted(set((a["impl"], a["fn"]) for a in tg["arms"])):
+            for (impl_, fn_) in sorted(set((a["impl"], a["fn"]) for a in tg["arm_methods"])):
                 k_ = u.fi.fns.get((impl_, fn_))
                 total = None
                 if isinstance(k_, int):
@@ -741,7 +742,7 @@ def census(repo, tgs=None, units=None):
                     total = sum(1 for i_ in range(j_, e_ - 3) if toks_[i_].s == "Message" and toks_[i_ + 1].s == "::" and toks_[i_ + 3].s == "("
                                 and any(toks_[q_].s == "=>" for q_ in range(i_ + 4, min(i_ + 12, e_))))
                 lst = []
-                for a in tg["arms"]:
+                for a in tg["arm_methods"]:
                     if (a["impl"], a["fn"]) != (impl_, fn_): continue
                     key_ = (a["impl"], "%s__%s" % (a["fn"], a["arm"]))
                     ok_ = tu is not None and key_ in tu.fns
